@@ -149,11 +149,11 @@ open Nima.Frag
 `Model/Cst.lean` (input: concrete-syntax trees with explicit gaps), `Model/FromCst.lean`
 (`NixSourceCode.from_cst`, `AttributeSet.from_cst`, `Binding.from_cst`, `NixList.from_cst`,
 `Parenthesis.from_cst`, `FunctionCall.from_cst`, `WithStatement.from_cst`, `Assertion.from_cst`,
-`Select.from_cst`, `FunctionDefinition.from_cst`, `parse_delimited_sequence`)
+`Select.from_cst`, `FunctionDefinition.from_cst`, `UnaryExpression.from_cst`, `parse_delimited_sequence`)
 and `Model/Rebuild.lean` (`rebuild` of the same classes, string level and piece level) model the parse
 side and the render side for files made of attribute sets with plain single-segment names, lists,
 parenthesised expressions `( e )`, function applications `f x` / `f x y`, `with e; body`,
-`assert e; body`, selects `e.a.b` / `e.a or d`, lambdas `x: body` and leaf values, nested to any depth, with
+`assert e; body`, selects `e.a.b` / `e.a or d`, lambdas `x: body`, unary `!e` / `-e` and leaf values, nested to any depth, with
 arbitrary whitespace and line / one-line block comments in every gap (inside parentheses and between
 function and argument too; the three gaps of a `with` / `assert` itself — after the keyword and around
 its `;` —, the gaps around the `.` / `or` of a select and around the `:` of a lambda hold whitespace only:
@@ -322,6 +322,19 @@ example : lambdaSample.wf = true ∧ lambdaSample.noLeadingWs = true := by decid
 example : lambdaSample.codeTokens =
     ["self", ":", "super", ":", "{", "a", "=", "x", ":", "x", ".", "b", ";", "}"].map String.toList := by decide
 example : lambdaSample.roundtrip = .ok "self: super:\n\n\n{ a = x: x.b; }".toList := by decide
+
+/-- `assert !f x; -⏎  (a.b)`: unary operators over a call and over a parenthesised select -/
+def unarySample : File :=
+  { items := .elem []
+      (.kw false [] " ".toList (.un ['!'] [] [] (.app (.leaf .ident "f".toList) [] " ".toList (.leaf .ident "x".toList)))
+        [] [] [] " ".toList
+        (.un ['-'] [] "\n  ".toList (.paren (.elem [] (.sel (.leaf .ident "a".toList) [] [] [] ["b".toList]) .nil) []))) .nil,
+    endGap := [] }
+
+example : unarySample.flatten = "assert !f x; -\n  (a.b)".toList := by decide
+example : unarySample.wf = true ∧ unarySample.noLeadingWs = true := by decide
+example : unarySample.codeTokens =
+    ["assert", "!", "f", "x", ";", "-", "(", "a", ".", "b", ")"].map String.toList := by decide
 
 end Fragment
 
